@@ -59,13 +59,17 @@ NumUnpack(lk, ty, cls) ==
     [] cls = "oor" -> IF IsReal(ty) THEN P ELSE X
     [] cls = "long" -> IF IsReal(ty) THEN P
                        ELSE P \cup L(lk, "IntInf", {"OverflowError"}, X)
-    [] OTHER -> X          \* empty, ws, alpha, junk
-NumUntyped(cls) == IF cls \in {"empty", "ws", "alpha", "junk"} THEN X ELSE P
+    [] cls = "junk" -> P \cup X      \* str.strip() also drops U+00A0
+    [] OTHER -> X          \* empty, ws, alpha
+NumUntyped(cls) == IF cls \in {"empty", "ws", "alpha"} THEN X
+                   ELSE IF cls = "junk" THEN P \cup X ELSE P
 NumCimvalue(lk, ty, cls) ==
   LET bad == L(lk, "CimvalueRaw", {"ValueError"}, X) IN
   IF IsReal(ty)
-  THEN IF cls \in {"hex", "empty", "ws", "alpha", "junk"} THEN bad ELSE P
+  THEN IF cls \in {"hex", "empty", "ws", "alpha"} THEN bad
+       ELSE IF cls = "junk" THEN P \cup bad ELSE P
   ELSE CASE cls \in {"dec", "plus", "usc", "udig"} -> P
+         [] cls = "junk" -> P \cup bad
          [] cls = "neg" -> IF Unsigned(ty) THEN bad ELSE P
          [] cls = "ws" -> bad
          [] OTHER -> bad
@@ -328,7 +332,8 @@ DefOut(lk, shape, d) ==
            [] d.cls = "out_classname" -> P \cup misc
            [] d.cls \in {"out_hex", "retval_hex", "out_str_for_num",
                          "out_type_bogus", "retval_type_bogus"} -> conv
-           [] d.cls \in {"out_inst", "out_reftype_value", "retval_last",
+           [] d.cls = "out_inst" -> P \cup misc
+           [] d.cls \in {"out_reftype_value", "retval_last",
                          "two_retvals"} -> misc
            [] OTHER -> key   \* retval_empty, retval_notype, retval_ref_notype
     [] OTHER -> X
